@@ -234,7 +234,7 @@ def random_stream_trace(job):
 
 
 def c2s_stream(ctx, mode, n, length=None):
-    length = length or ctx.pick(30, 60)
+    length = length or ctx.pick(30, 45)
     jobs = [(i + 1, ctx.seed * 1000003 + i * 7919 + {"read": 1, "write": 2, "close": 3}[mode], mode, length) for i in range(n)]
     t0 = time.time()
     traces = framework.pool_map(random_stream_trace, jobs)
